@@ -514,11 +514,11 @@ theorem clsSet_frames (s : St) (c : CId) (n : Name) (v : Obj) :
     split
     · rename_i q k hq hk
       have hplt : p < s.heap.length := (List.getElem?_eq_some_iff.1 hq).1
-      by_cases e : owner = c
-      · simp only [e, if_true]
-        split
-        · exact ⟨Frame.refl _, ConstFrame.refl _⟩
-        · rename_i hr
+      split
+      · exact ⟨Frame.refl _, ConstFrame.refl _⟩
+      · rename_i hr
+        by_cases e : owner = c
+        · simp only [e, if_true]
           apply frames_heap_classes (s := s) s.classes
           · intro p' q' hq'
             rw [List.getElem?_set]
@@ -530,13 +530,8 @@ theorem clsSet_frames (s : St) (c : CId) (n : Name) (v : Obj) :
             · simp only [e', if_false]
               exact ⟨q', hq', rfl, rfl, fun _ => rfl⟩
           · simp
-      · simp only [e, if_false]
-        split
-        · apply frames_heap_classes (s := s)
-          · intro p' q' hq'
-            exact ⟨q', append_get hq', rfl, rfl, fun _ => rfl⟩
-          · simp
-        · apply frames_heap_classes (s := s)
+        · simp only [e, if_false]
+          apply frames_heap_classes (s := s)
           · intro p' q' hq'
             have hlt' : p' < s.heap.length := (List.getElem?_eq_some_iff.1 hq').1
             have hne : ¬ s.heap.length = p' := Nat.ne_of_gt hlt'
@@ -990,35 +985,33 @@ theorem wf_clsSet {s : St} (hwf : WF s) (c : CId) (n : Name) (v : Obj) : WF (ste
   · rename_i p owner hd
     split
     · rename_i q k hq hk
-      by_cases e : owner = c
-      · simp only [e, if_true]
-        split
-        · exact hwf
-        · exact WF.of_same (s := s) rfl rfl (by simp) hwf
-      · simp only [e, if_false]
-        have key : ∀ h' : List Param, h'.length = s.heap.length + 1 →
-            WF { s with heap := h', classes := s.classes.set c { k with dict := aset k.dict n s.heap.length } } := by
-          intro h' hl
-          constructor
-          · intro i x m ipm hx hm
-            show ipm < h'.length
-            rw [hl]; exact Nat.lt_succ_of_lt (hwf.ip i x m ipm hx hm)
-          · intro c' m p' ha
-            show p' < h'.length
-            rw [hl]
-            rw [clsDict_set hk] at ha
-            split at ha
-            · rename_i ec
-              simp only at ha
-              rw [aget_aset] at ha
+      split
+      · exact hwf
+      · by_cases e : owner = c
+        · simp only [e, if_true]
+          exact WF.of_same (s := s) rfl rfl (by simp) hwf
+        · simp only [e, if_false]
+          have key : ∀ h' : List Param, h'.length = s.heap.length + 1 →
+              WF { s with heap := h', classes := s.classes.set c { k with dict := aset k.dict n s.heap.length } } := by
+            intro h' hl
+            constructor
+            · intro i x m ipm hx hm
+              show ipm < h'.length
+              rw [hl]; exact Nat.lt_succ_of_lt (hwf.ip i x m ipm hx hm)
+            · intro c' m p' ha
+              show p' < h'.length
+              rw [hl]
+              rw [clsDict_set hk] at ha
               split at ha
-              · cases ha; exact Nat.lt_succ_self _
-              · have : aget (clsDict s c) m = some p' := by unfold clsDict; rw [hk]; exact ha
-                exact Nat.lt_succ_of_lt (hwf.dp c m p' this)
-            · exact Nat.lt_succ_of_lt (hwf.dp c' m p' ha)
-        split
-        · exact key _ (by simp)
-        · exact key _ (by simp)
+              · rename_i ec
+                simp only at ha
+                rw [aget_aset] at ha
+                split at ha
+                · cases ha; exact Nat.lt_succ_self _
+                · have : aget (clsDict s c) m = some p' := by unfold clsDict; rw [hk]; exact ha
+                  exact Nat.lt_succ_of_lt (hwf.dp c m p' this)
+              · exact Nat.lt_succ_of_lt (hwf.dp c' m p' ha)
+          exact key _ (by simp)
     · exact hwf
 
 theorem wf_newInst {s : St} (hwf : WF s) (c : CId) (kw : List (Name × Obj)) : WF (step s (.newInst c kw)).1 := by
@@ -1366,11 +1359,11 @@ theorem clsSet_gov {s : St} (hwf : WF s) (hh : Hier s) (c : CId) (n : Name) (v :
     split
     · rename_i q k hq hk
       have hplt : p < s.heap.length := (List.getElem?_eq_some_iff.1 hq).1
-      by_cases e : owner = c
-      · simp only [e, if_true]
-        split
-        · exact ⟨fun _ _ _ => rfl, fun _ _ => rfl, hh⟩
-        · -- only the default of p changes
+      split
+      · exact ⟨fun _ _ _ => rfl, fun _ _ => rfl, hh⟩
+      · by_cases e : owner = c
+        · simp only [e, if_true]
+          -- only the default of p changes
           have hf : ∀ p' : PId, ((s.heap.set p { q with default := v })[p']?).map fl = (s.heap[p']?).map fl := by
             intro p'
             rw [List.getElem?_set]
@@ -1379,48 +1372,43 @@ theorem clsSet_gov {s : St} (hwf : WF s) (hh : Hier s) (c : CId) (n : Name) (v :
             · simp [e']
           have g := gov_of_flags (s := s) (s' := { s with heap := s.heap.set p { q with default := v } }) rfl rfl hf
           exact ⟨fun j m _ => g.1 j m, g.2, ⟨hh.self, hh.suffix⟩⟩
-      · simp only [e, if_false]
-        -- the class table with the copy installed
-        have hier' : ∀ h' : List Param,
-            Hier { s with heap := h', classes := s.classes.set c { k with dict := aset k.dict n s.heap.length } } := by
-          intro h'
-          have hmro := fun c' => mroOf_set (k' := { k with dict := aset k.dict n s.heap.length }) hk rfl h' c'
-          constructor
-          · intro c' k' hk'
-            have hk'' : (s.classes.set c { k with dict := aset k.dict n s.heap.length })[c']? = some k' := hk'
-            rw [List.getElem?_set] at hk''
-            by_cases ec : c = c'
-            · subst ec
-              have hlt : c < s.classes.length := (List.getElem?_eq_some_iff.1 hk).1
-              simp only [hlt, if_true, Option.some.injEq] at hk''
-              subst hk''
-              exact hh.self c k hk
-            · simp only [ec, if_false] at hk''
-              exact hh.self c' k' hk''
-          · intro c' c0 pre post hp
-            rw [hmro] at hp ⊢
-            exact hh.suffix c' c0 pre post hp
-        have cow : ∀ h' : List Param, (∀ p' : PId, p' < s.heap.length → (h'[p']?).map fl = (s.heap[p']?).map fl) →
-            (h'[s.heap.length]?).map fl = some (fl q) →
-            CowStep s { s with heap := h', classes := s.classes.set c { k with dict := aset k.dict n s.heap.length } } c n q := by
-          intro h' ho hn
-          refine ⟨rfl, fun c' => mroOf_set (k' := { k with dict := aset k.dict n s.heap.length }) hk rfl h' c', ?_, ho, hn⟩
-          intro c'
-          rw [clsDict_set hk]
-          split
-          · rename_i ec; subst ec
-            show aset k.dict n s.heap.length = aset (clsDict s c') n s.heap.length
-            unfold clsDict; rw [hk]
-          · rfl
-        split
-        · have g := cow_gov hwf hh (cow (s.heap ++ [q])
-            (fun p' hp' => by rw [List.getElem?_append_left hp'])
-            (by rw [List.getElem?_concat_length]; rfl)) hd hq
-          exact ⟨g.1, g.2, hier' _⟩
-        · have g := cow_gov hwf hh (cow ((s.heap ++ [q]).set s.heap.length { q with default := v })
-            (fun p' hp' => by
-              rw [List.getElem?_set, if_neg (Nat.ne_of_gt hp'), List.getElem?_append_left hp'])
-            (by rw [List.getElem?_set]; simp [fl])) hd hq
+        · simp only [e, if_false]
+          -- the class table with the copy installed
+          have hier' : ∀ h' : List Param,
+              Hier { s with heap := h', classes := s.classes.set c { k with dict := aset k.dict n s.heap.length } } := by
+            intro h'
+            have hmro := fun c' => mroOf_set (k' := { k with dict := aset k.dict n s.heap.length }) hk rfl h' c'
+            constructor
+            · intro c' k' hk'
+              have hk'' : (s.classes.set c { k with dict := aset k.dict n s.heap.length })[c']? = some k' := hk'
+              rw [List.getElem?_set] at hk''
+              by_cases ec : c = c'
+              · subst ec
+                have hlt : c < s.classes.length := (List.getElem?_eq_some_iff.1 hk).1
+                simp only [hlt, if_true, Option.some.injEq] at hk''
+                subst hk''
+                exact hh.self c k hk
+              · simp only [ec, if_false] at hk''
+                exact hh.self c' k' hk''
+            · intro c' c0 pre post hp
+              rw [hmro] at hp ⊢
+              exact hh.suffix c' c0 pre post hp
+          have cow : ∀ h' : List Param, (∀ p' : PId, p' < s.heap.length → (h'[p']?).map fl = (s.heap[p']?).map fl) →
+              (h'[s.heap.length]?).map fl = some (fl q) →
+              CowStep s { s with heap := h', classes := s.classes.set c { k with dict := aset k.dict n s.heap.length } } c n q := by
+            intro h' ho hn
+            refine ⟨rfl, fun c' => mroOf_set (k' := { k with dict := aset k.dict n s.heap.length }) hk rfl h' c', ?_, ho, hn⟩
+            intro c'
+            rw [clsDict_set hk]
+            split
+            · rename_i ec; subst ec
+              show aset k.dict n s.heap.length = aset (clsDict s c') n s.heap.length
+              unfold clsDict; rw [hk]
+            · rfl
+          have g := cow_gov hwf hh (cow ((s.heap ++ [q]).set s.heap.length { q with default := v })
+              (fun p' hp' => by
+                rw [List.getElem?_set, if_neg (Nat.ne_of_gt hp'), List.getElem?_append_left hp'])
+              (by rw [List.getElem?_set]; simp [fl])) hd hq
           exact ⟨g.1, g.2, hier' _⟩
     · exact ⟨fun _ _ _ => rfl, fun _ _ => rfl, hh⟩
 
